@@ -240,3 +240,13 @@ Definition fmt_sprint (o : fmt_operand) : string :=
             | None => match fo_string o with Some s => s | None => fo_raw o end
             end
   end.
+
+(* deferUnlambda (rules.go): `defer func() { $f($*args) }()` => `defer $f($args)` with $f any identifier (or
+   pkg.f) and constant arguments: the deferred literal evaluates $f when it RUNS, `defer $f()` when the defer
+   statement is executed — the same callee question as for unlambda *)
+Definition defer_unlambda_flags (c : callee) : bool :=
+  match c with
+  | CPkgFunc _ => true
+  | CFuncVar _ => true       (* m["f"].Node.Is(`Ident`): a func-typed variable is an identifier too *)
+  | _ => false
+  end.
